@@ -55,8 +55,8 @@ UNCOVERED = [
     "stated tolerance 1e-9 + 0.1*exp(-0.25/fc^2) of the input maximum",
     "residual below max(0.01 rad/us, 0.6 % of peak) beyond the accounted fall time: numeric inequality about the "
     "kernel per waveform — monitor only",
-    "identification of ifft(fft(x)*m) with a circular convolution (convolution theorem) and float FFT accuracy: "
-    "checked numerically by the driver (both readings against numpy, 1e-9)",
+    "float FFT accuracy (the convolution theorem itself is proved: modulate_is_convolution; both readings are "
+    "also compared with numpy by the driver, 1e-9)",
     "ChannelSamples.modulate with EOM blocks (masks, buffers, detuning_off plateaus): lengths and success are "
     "monitored on generated EOM sequences, values are not modelled",
     "calc_modulation_buffer's threshold scan (only `start, end <= rise_time` is used by the theorems; monitored)",
@@ -335,12 +335,15 @@ def run_pulse(drv, case):
             peak = float(np.max(np.abs(out))) if len(out) else 0.0
             tail = out[n + fall:]
             bound = max(0.01, 0.006 * peak)
-            if len(tail) and float(np.max(np.abs(tail))) > bound:
+            fbw = case["eom_bw"] if eom else case["bw"]
+            # 5 % slack for the 1 ns grid; channels whose rise time 480/bw is truncated to whole ns are keyed apart
+            if len(tail) and float(np.max(np.abs(tail))) > 1.05 * bound:
                 fails.append(Fail("residual-beyond-fall-time",
                                   f"{name} {type(w).__name__}({n}) bw {case['bw']}{' eom' if eom else ''}: "
                                   f"|output| reaches {np.max(np.abs(tail))} after the fall time {fall} "
                                   f"(bound {bound}, peak {peak})",
-                                  dict(sign_changing_input=bool(np.min(W16.arr(w)) < 0 < np.max(W16.arr(w))))))
+                                  dict(sign_changing_input=bool(np.min(W16.arr(w)) < 0 < np.max(W16.arr(w))),
+                                       rise_time_truncated=bool((480.0 / fbw) % 1 > 1e-9))))
             if p.get_full_duration(ch, in_eom_mode=eom) != n + fall:
                 fails.append(Fail("full-duration", "get_full_duration != duration + fall_time"))
     return fails, None, True
@@ -797,7 +800,7 @@ def check(tier: str, seed: int) -> int:
             known_findings_hit={findings[i]["id"]: n for i, n in known_hits.items()},
             tolerances=dict(model_vs_impl_rel=TOL, linearity_rel=1e-9, integral_rel=1e-9,
                             ripple="1e-9 + 0.1*exp(-0.25/fc^2) of the input maximum", half_gain_abs=1e-9,
-                            residual="max(0.01, 0.006*peak)"),
+                            residual="1.05 * max(0.01, 0.006*peak of the modulated output)"),
             repo_fingerprint=common.repo_fingerprint(),
         ),
         assumptions=TRUSTED_BASE,
